@@ -295,7 +295,7 @@ func (s asciiString) StrictEquals(other Value) bool {
 		return s == otherStr
 	}
 	if otherStr, ok := other.(*importedString); ok {
-		if otherStr.u == nil {
+		if !otherStr.scanned.Load() || otherStr.u == nil {
 			return string(s) == otherStr.s
 		}
 	}
